@@ -104,4 +104,22 @@ theorem stack_prefix_rejected (ty : Ty) (d : Dat) (h : WF ty d) (n : Nat) (hn : 
   rw [loadField_eq, dumpField_eq ty d h] at *
   exact Covfie.C08.load_prefix_rejects ty d h n hn
 
+/-- C08 (code as written, every stack): a dump in which one header / footer word or the float-width word (to a value other than 4
+and 8) has been altered is rejected by the readers' statements, whatever follows it in the stream. -/
+theorem stack_altered_rejected (ty : Ty) (d : Dat) (bs : List Byte) (h : WF ty d) (ha : Covfie.C08.FieldAlt ty d bs)
+    (rest : List Byte) : IsErr (loadField ty (bs ++ rest)) := by
+  rw [loadField_eq]; exact Covfie.C08.load_altered_rejects ty d bs h ha rest
+
+/-- C08 (code as written): what the writers' statements of one stack produce is rejected by the readers' statements of a stack
+whose serialised layers diverge from it. -/
+theorem stack_incompatible_rejected (ty ty' : Ty) (hd : Covfie.C08.Diverge ty ty') (d : Dat) (h : WF ty d) (rest : List Byte) :
+    IsErr (loadField ty' (dumpField ty d ++ rest)) := by
+  rw [loadField_eq, dumpField_eq ty d h]; exact Covfie.C08.load_incompatible_rejects ty ty' hd d h rest
+
+/-- C06 (code as written): two fields written one after the other into one stream are read back one after the other. -/
+theorem stack_two_in_a_stream (ty₁ ty₂ : Ty) (d₁ d₂ : Dat) (rest : List Byte) (h₁ : WF ty₁ d₁) (h₂ : WF ty₂ d₂) :
+    loadField ty₁ (dumpField ty₁ d₁ ++ (dumpField ty₂ d₂ ++ rest)) = .ok (d₁, dumpField ty₂ d₂ ++ rest)
+      ∧ loadField ty₂ (dumpField ty₂ d₂ ++ rest) = .ok (d₂, rest) :=
+  ⟨stack_roundtrip ty₁ d₁ _ h₁, stack_roundtrip ty₂ d₂ rest h₂⟩
+
 end Covfie.Code
